@@ -110,27 +110,6 @@ Proof.
   - unfold comps. rewrite split_on_join; [reflexivity|discriminate|assumption].
 Qed.
 
-Lemma comps_single i : mem ch_slash i = false -> comps i = [i].
-Proof.
-  intro H. apply mem_false_notin in H. unfold comps, split_on.
-  rewrite <- (app_nil_r i) at 1. rewrite split_on_aux_app by assumption.
-  cbn [split_on_aux]. rewrite app_nil_r, rev_involutive. reflexivity.
-Qed.
-
-Lemma pjoin_single p i : mem ch_slash i = false -> pjoin p i = (p, [i]).
-Proof.
-  intro H. unfold pjoin. rewrite comps_single by assumption.
-  destruct i as [|c r]; [reflexivity|]. rewrite mem_cons in H. apply orb_false_iff in H as [H _].
-  cbn [prefixb]. rewrite H. reflexivity.
-Qed.
-
-Lemma resolve_index flt tok f d i : mem 0%N i = false -> mem ch_slash i = false ->
-  gen_resolve_fully (model_lib flt tok) f (pjoin d i) = rfull_res (resolve_fully f d [i]).
-Proof.
-  intros H0 Hs. rewrite pjoin_single by assumption. rewrite resolve_fully_tie.
-  unfold nul_guard. cbn [existsb]. rewrite H0. reflexivity.
-Qed.
-
 (* ---------- StaticFileHandler.handle ---------- *)
 (* the code after the directory block, for a resolved regular file p *)
 Ltac serve_tail c ct En El :=
@@ -139,11 +118,11 @@ Ltac serve_tail c ct En El :=
   destruct (decode ct); [|reflexivity];
   rewrite mime_tie; cbn [norm_resp g_status g_meta g_body resp_of_sout]; rewrite meta_label_mime; reflexivity.
 
-Lemma handle_tie_partial : forall flt tok c f url,
-  index_names_ok c f ->
+(* the generated handle is the model, without any hypothesis *)
+Lemma handle_tie : forall flt tok c f url,
   norm_resp (gen_handle (model_lib flt tok) c f url) = resp_of_sout (handle c f url).
 Proof.
-  intros flt tok c f url Hidx. unfold gen_handle, handle. lib. unfold m_canon.
+  intros flt tok c f url. unfold gen_handle, handle. lib. unfold m_canon.
   destruct (unquote url) as [up|k m|]; try reflexivity.
   destruct (canon_strict (comps up) []) as [segs|] eqn:Ec; [|reflexivity].
   cbv beta iota zeta.
@@ -153,54 +132,15 @@ Proof.
   cbn [rfull_res]. cbv beta iota. rewrite static_is_safe_path_tie. cbv beta iota.
   destruct (path_prefixb (s_root c) fp) eqn:Ep; [|reflexivity].
   unfold m_is_dir, m_exists, m_is_file, m_st_size, m_read_text.
-  destruct (name_too_long fp) eqn:En; [reflexivity|].
-  destruct (lstat f fp) as [[ct| |tg]|] eqn:El; cbv beta iota.
-  - serve_tail c ct En El.
-  - (* a directory: the index loop *)
-    unfold index_names_ok in Hidx.
-    remember (s_indices c) as idxs eqn:Ei in |- *.
-    assert (Hin : incl idxs (s_indices c)) by (subst idxs; apply incl_refl). clear Ei.
-    induction idxs as [|i rest IH].
-    + cbn [try_indices]. cbv beta iota. cbn [negb]. cbv iota. unfold listing, m_listing.
-      destruct (s_listing c); [|reflexivity].
-      destruct (existsb _ (children f fp)); reflexivity.
-    + assert (IH' := IH (fun x Hx => Hin x (or_intror Hx))). clear IH.
-      destruct (Hidx i (Hin i (or_introl eq_refl))) as [H0 [Hs Hlong]].
-      cbn [try_indices]. cbv beta iota. rewrite (resolve_index _ _ _ _ _ H0 Hs).
-      destruct (resolve_fully f fp [i]) as [ip| |] eqn:Eri; cbn [rfull_res]; cbv beta iota;
-        [|exact IH'|reflexivity].
-      rewrite static_is_safe_path_tie. cbv beta iota.
-      destruct (path_prefixb (s_root c) ip) eqn:Epi; cbn [andb]; [|exact IH'].
-      rewrite (Hlong _ _ Eri Epi).
-      destruct (lstat f ip) as [[cti| |tgi]|] eqn:Eli; cbv beta iota; try exact IH'.
-      cbn [negb]. cbv iota. serve_tail c cti (Hlong _ _ Eri Epi) Eli.
-  - unfold serve_file. rewrite El. reflexivity.
-  - unfold serve_file. rewrite El. reflexivity.
-Qed.
-
-(* the generated handle is the corrected model, without any hypothesis *)
-Lemma handle_tie_fixed_model : forall flt tok c f url,
-  norm_resp (gen_handle (model_lib flt tok) c f url) = resp_of_sout (handle_fixed c f url).
-Proof.
-  intros flt tok c f url. unfold gen_handle, handle_fixed. lib. unfold m_canon.
-  destruct (unquote url) as [up|k m|]; try reflexivity.
-  destruct (canon_strict (comps up) []) as [segs|] eqn:Ec; [|reflexivity].
-  cbv beta iota zeta.
-  rewrite (resolve_joined _ _ _ _ _ _ Ec). unfold nul_guard.
-  destruct (existsb (mem 0%N) segs); [reflexivity|].
-  destruct (resolve_fully f (s_root c) segs) as [fp| |] eqn:Er; try reflexivity.
-  cbn [rfull_res]. cbv beta iota. rewrite static_is_safe_path_tie. cbv beta iota.
-  destruct (path_prefixb (s_root c) fp) eqn:Ep; [|reflexivity].
-  unfold m_is_dir, m_exists, m_is_file, m_st_size, m_read_text.
-  destruct (name_too_long fp) eqn:En; [reflexivity|].
+  destruct (enametoolong f fp) eqn:En; [reflexivity|].
   destruct (lstat f fp) as [[ct| |tg]|] eqn:El; cbv beta iota.
   - serve_tail c ct En El.
   - generalize (s_indices c) as idxs. intro idxs.
     induction idxs as [|i rest IH].
-    + cbn [try_indices_fixed]. cbv beta iota. cbn [negb]. cbv iota. unfold listing, m_listing.
+    + cbn [try_indices]. cbv beta iota. cbn [negb]. cbv iota. unfold listing, m_listing.
       destruct (s_listing c); [|reflexivity].
       destruct (existsb _ (children f fp)); reflexivity.
-    + cbn [try_indices_fixed]. cbv beta iota zeta.
+    + cbn [try_indices]. cbv beta iota zeta.
       destruct (pjoin fp i) as [b rel].
       rewrite resolve_fully_tie. unfold nul_guard. cbn [fst snd].
       destruct (existsb (mem 0%N) rel); cbv beta iota; [exact IH|].
@@ -208,7 +148,7 @@ Proof.
         [|exact IH|reflexivity].
       rewrite static_is_safe_path_tie. cbv beta iota.
       destruct (path_prefixb (s_root c) ip) eqn:Epi; [|exact IH].
-      destruct (name_too_long ip) eqn:Eni; [reflexivity|].
+      destruct (enametoolong f ip) eqn:Eni; [reflexivity|].
       destruct (lstat f ip) as [[cti| |tgi]|] eqn:Eli; cbv beta iota; try exact IH.
       cbn [negb]. cbv iota. serve_tail c cti Eni Eli.
   - unfold serve_file. rewrite El. reflexivity.
@@ -266,7 +206,7 @@ Definition model_delete (c : ucfg) (f : fs) (p : str) : uout * fs :=
        | Err k _ => (URaise k, f)
        | Ok None => (UResp 59 (lit "Invalid path"), f)
        | Ok (Some t) =>
-           if name_too_long t then (URaise (lit "oserror"), f) else
+           if enametoolong f t then (URaise (lit "oserror"), f) else
            match lstat f t with
            | None => (UResp 51 (lit "Resource not found"), f)
            | Some Dir => (UResp 40 (lit "Delete failed"), f)
@@ -285,7 +225,7 @@ Proof.
   cbv beta iota zeta. rewrite upload_is_safe_path_tie. cbv beta iota.
   destruct (path_prefixb (u_root c) t); [|reflexivity].
   lib. unfold m_exists, m_unlink.
-  destruct (name_too_long t); [reflexivity|].
+  destruct (enametoolong f t); [reflexivity|].
   destruct (lstat f t) as [[ct| |tg]|]; reflexivity.
 Qed.
 
@@ -305,24 +245,6 @@ Proof.
   rewrite app_nil_r. apply remove_absent. assumption.
 Qed.
 
-Lemma path_eqb_length a b : path_eqb a b = true -> length a = length b.
-Proof. intro H. apply path_eqb_eq in H. congruence. Qed.
-
-(* mkdirs creates prefixes of pre ++ rest only *)
-Lemma mkdirs_lstat_long : forall fuel f pre rest f1 p,
-  mkdirs fuel f pre rest = Some f1 -> (length pre + length rest < length p)%nat -> lstat f1 p = lstat f p.
-Proof.
-  induction fuel as [|fu IH]; cbn [mkdirs]; intros f pre rest f1 p H Hl; [discriminate|].
-  destruct rest as [|n rest']; [inversion H; reflexivity|]. cbn [length] in Hl.
-  assert (Hl' : (length (pre ++ [n]) + length rest' < length p)%nat) by (rewrite app_length; cbn [length]; lia).
-  destruct (lstat f (pre ++ [n])) as [[ct| |tg]|] eqn:E; try discriminate.
-  - eapply IH; eassumption.
-  - destruct (follow f (pre ++ [n])) as [[| |]|]; try discriminate. eapply IH; eassumption.
-  - rewrite (IH _ _ _ _ _ H Hl'). rewrite lstat_app. destruct (lstat f p); [reflexivity|].
-    cbn [lstat]. destruct (path_eqb p (pre ++ [n])) eqn:Eq; [|reflexivity].
-    apply path_eqb_length in Eq. rewrite app_length in Eq. cbn [length] in Eq. lia.
-Qed.
-
 Lemma path_name_snoc l x : path_name (l ++ [x]) = x.
 Proof. unfold path_name. rewrite rev_app_distr. reflexivity. Qed.
 Lemma path_with_name_snoc l x n : path_with_name (l ++ [x]) n = Ok (l ++ [n]).
@@ -330,16 +252,6 @@ Proof. unfold path_with_name. rewrite removelast_last. destruct l; reflexivity. 
 Lemma tmp_of_snoc l x tok : tmp_of (l ++ [x]) tok = l ++ [tmp_name x tok].
 Proof. unfold tmp_of. rewrite removelast_last, path_name_snoc. reflexivity. Qed.
 
-Lemma name_too_long_app a b : name_too_long (a ++ b) = name_too_long a || name_too_long b.
-Proof. unfold name_too_long. apply existsb_app. Qed.
-Lemma too_long_tmp l x tok :
-  name_too_long (l ++ [tmp_name x tok]) = false -> name_too_long (l ++ [x]) = false.
-Proof.
-  unfold tmp_name. rewrite !name_too_long_app. intro H. apply orb_false_iff in H as [Hl Hx]. rewrite Hl. cbn [orb].
-  unfold name_too_long in *. cbn [existsb] in *. rewrite orb_false_r in *.
-  apply N.ltb_ge in Hx. apply N.ltb_ge.
-  unfold encode_replace in *. rewrite !flat_map_app, !app_length in Hx. lia.
-Qed.
 Lemma tmp_differs l x tok : path_eqb (l ++ [x]) (l ++ [tmp_name x tok]) = false.
 Proof.
   unfold tmp_name. apply path_eqb_neq. intro E. apply app_inv_head in E.
@@ -364,17 +276,17 @@ Lemma snoc_match {A B} (l : list A) (x : A) (a b : B) :
   match l ++ [x] with [] => a | _ :: _ => b end = b.
 Proof. destruct l; reflexivity. Qed.
 
-(* the save branch of StaticGlue.handle_upload_fixed *)
-Definition model_save_fixed (c : ucfg) (f : fs) (r : ureq) (flt : fault) (tok : str) : uout * fs :=
+(* the save branch of Model.Static.handle_upload *)
+Definition model_save (c : ucfg) (f : fs) (r : ureq) (flt : fault) (tok : str) : uout * fs :=
   match resolve_target c f (q_path r) with
   | OutOfModel => (UOom, f)
   | Err k _ => (URaise k, f)
   | Ok None => (UResp 59 (lit "Invalid path"), f)
   | Ok (Some t) =>
-      if name_too_long (removelast t) then (UResp 40 (lit "Upload failed"), f) else
-      match mkdirs (S (length t)) f [] (removelast t) with
+      match mkdirs (S (length t)) f [] (short_prefix (removelast t)) with
       | None => (UResp 40 (lit "Upload failed"), f)
       | Some f1 =>
+          if name_too_long (removelast t) then (UResp 40 (lit "Upload failed"), f1) else
           match t with
           | [] => (UResp 40 (lit "Upload failed"), f1)
           | _ =>
@@ -395,25 +307,25 @@ Definition model_save_fixed (c : ucfg) (f : fs) (r : ureq) (flt : fault) (tok : 
       end
   end.
 
-(* the generated handle_upload is the corrected model, without any hypothesis *)
-Lemma handle_upload_tie_fixed_model : forall flt tok c f r,
-  upload_out (gen_handle_upload (model_lib flt tok) c f r) = model_out (handle_upload_fixed c f r flt tok).
+(* the generated handle_upload is the model, without any hypothesis *)
+Lemma handle_upload_tie : forall flt tok c f r,
+  upload_out (gen_handle_upload (model_lib flt tok) c f r) = model_out (handle_upload c f r flt tok).
 Proof.
   intros flt tok c f r. unfold gen_handle_upload.
   (* the two continuations of the admission checks: delete and save *)
   lazymatch goal with
   | |- context [if (q_size r =? 0)%N then ?A else ?B] => set (TD := A); set (TS := B)
   end.
-  change (handle_upload_fixed c f r flt tok) with
+  change (handle_upload c f r flt tok) with
     (if negb (token_ok c (q_token r)) then (UResp 60 (lit "Valid authentication token required"), f)
      else if (u_max c <? q_size r)%N then (UResp 50 (lit "Upload exceeds maximum size"), f)
      else if match u_types c with Some (t :: ts) => negb (existsb (eqb (q_mime r)) (t :: ts)) | _ => false end
           then (UResp 59 (lit "MIME type not allowed"), f)
-     else if (q_size r =? 0)%N then model_delete c f (q_path r) else model_save_fixed c f r flt tok).
+     else if (q_size r =? 0)%N then model_delete c f (q_path r) else model_save c f r flt tok).
   assert (HD : upload_out TD = model_out (model_delete c f (q_path r))).
   { subst TD. rewrite res_pair_eta. apply handle_delete_tie. }
-  assert (HS : upload_out TS = model_out (model_save_fixed c f r flt tok)).
-  { subst TS. unfold model_save_fixed.
+  assert (HS : upload_out TS = model_out (model_save c f r flt tok)).
+  { subst TS. unfold model_save.
     rewrite gen_resolve_target_eq. rewrite rt_spec_model.
     destruct (rt_spec c f (q_path r)) as [[t|]|k m|] eqn:E; cbn [contained]; try reflexivity;
       [|exfalso; eapply rt_spec_noerr; eassumption].
@@ -422,11 +334,11 @@ Proof.
     lib. unfold m_mkdir_parents, path_parent.
     induction t as [|x l _] using rev_ind.
     - (* the target is the filesystem root: with_name raises ValueError *)
-      unfold name_too_long. cbn [removelast length existsb mkdirs]. cbv beta iota. reflexivity.
+      unfold name_too_long. cbn [removelast length existsb mkdirs short_prefix]. cbv beta iota. reflexivity.
     - rewrite removelast_last.
-      destruct (name_too_long l) eqn:Hl; [reflexivity|].
       rewrite app_length. cbn [length]. rewrite Nat.add_1_r.
-      destruct (mkdirs (S (S (length l))) f [] l) as [f1|] eqn:Em; [|reflexivity].
+      destruct (mkdirs (S (S (length l))) f [] (short_prefix l)) as [f1|] eqn:Em; [|reflexivity].
+      destruct (name_too_long l) eqn:Hl; [reflexivity|].
       cbv beta iota. rewrite path_name_snoc, path_with_name_snoc. cbv beta iota.
       rewrite snoc_match, tmp_of_snoc.
       change (lit "." ++ x ++ lit "." ++ tok ++ lit ".tmp") with (tmp_name x tok).
@@ -454,44 +366,12 @@ Proof.
   all: destruct (q_size r =? 0)%N; [exact HD|exact HS].
 Qed.
 
-(* where the corrected model and Model.Static.handle_upload agree *)
-Lemma upload_fixed_agrees : forall flt tok c f r,
-  (forall t, resolve_target c f (q_path r) = Ok (Some t) -> q_size r <> 0%N -> tmp_ok f t tok) ->
-  handle_upload_fixed c f r flt tok = handle_upload c f r flt.
-Proof.
-  intros flt tok c f r Htmp. unfold handle_upload_fixed, handle_upload.
-  destruct (negb (token_ok c (q_token r))); [reflexivity|].
-  destruct (u_max c <? q_size r)%N; [reflexivity|].
-  destruct (match u_types c with Some (t :: ts) => negb (existsb (eqb (q_mime r)) (t :: ts)) | _ => false end);
-    [reflexivity|].
-  destruct (q_size r =? 0)%N eqn:Ez; [reflexivity|]. apply N.eqb_neq in Ez.
-  destruct (resolve_target c f (q_path r)) as [[t|]|k m|]; try reflexivity.
-  destruct (Htmp t eq_refl Ez) as [Hlong Hfresh]. clear Htmp.
-  induction t as [|x l _] using rev_ind.
-  - unfold name_too_long. cbn [removelast length existsb mkdirs]. cbv beta iota.
-    destruct flt; [reflexivity|]. destruct (lstat f []) as [[| |]|]; reflexivity.
-  - rewrite tmp_of_snoc in *.
-    assert (Hl : name_too_long (l ++ [x]) = false) by (eapply too_long_tmp; eassumption).
-    rewrite Hl, Hlong, removelast_last.
-    rewrite name_too_long_app in Hl. apply orb_false_iff in Hl as [Hl _]. rewrite Hl.
-    destruct (mkdirs (S (length (l ++ [x]))) f [] l) as [f1|] eqn:Em; [|reflexivity].
-    rewrite (mkdirs_lstat_long _ _ _ _ _ _ Em) by (rewrite app_length; cbn [length]; lia).
-    rewrite Hfresh, !snoc_match. reflexivity.
-Qed.
-
-Lemma handle_upload_tie_partial : forall flt tok c f r,
-  (forall t, resolve_target c f (q_path r) = Ok (Some t) -> q_size r <> 0%N -> tmp_ok f t tok) ->
-  upload_out (gen_handle_upload (model_lib flt tok) c f r) = model_out (handle_upload c f r flt).
-Proof.
-  intros flt tok c f r H. rewrite handle_upload_tie_fixed_model, (upload_fixed_agrees _ _ _ _ _ H). reflexivity.
-Qed.
-
 (* ---------- the delete branch, stated against Model.Static.handle_upload ---------- *)
 Lemma handle_delete_upload_tie : forall flt tok c f r,
   token_ok c (q_token r) = true -> (u_max c <? q_size r)%N = false ->
   match u_types c with Some (t :: ts) => negb (existsb (eqb (q_mime r)) (t :: ts)) | _ => false end = false ->
   q_size r = 0%N ->
-  upload_out (gen_handle_delete (model_lib flt tok) c f (q_path r)) = model_out (handle_upload c f r flt).
+  upload_out (gen_handle_delete (model_lib flt tok) c f (q_path r)) = model_out (handle_upload c f r flt tok).
 Proof.
   intros flt tok c f r Ht Hm Hty Hz. rewrite handle_delete_tie.
   unfold handle_upload. rewrite Ht, Hm, Hty, Hz. reflexivity.
@@ -505,44 +385,54 @@ Proof.
   lib. unfold m_canon. rewrite H. reflexivity.
 Qed.
 
-(* ---------- the hypotheses of the two partial ties are needed: machine-checked counterexamples ---------- *)
+(* ---------- the corner cases that an earlier version of Model/Static.v got wrong (each confirmed on the real code; the
+   model was corrected), kept as computed examples of what model and generated code now both answer ---------- *)
 Definition long_name : str := repeat 120%N 300.
 (* (1) an index name that is a symlink to an over-long name inside the root: is_file() raises OSError(ENAMETOOLONG),
-   which escapes handle(); the model goes on to the next index name and serves it *)
+   which escapes handle() (the old model went on to the next index name and served it) *)
 Definition cx1_cfg : scfg := {| s_root := [lit "r"]; s_indices := [lit "index.gmi"; lit "index.gemini"]; s_listing := false; s_max := 1000%N |}.
 Definition cx1_fs : fs :=
   [([lit "r"], Dir); ([lit "r"; lit "d"], Dir);
    ([lit "r"; lit "d"; lit "index.gmi"], Link (lit "/r/" ++ long_name));
    ([lit "r"; lit "d"; lit "index.gemini"], File (lit "hello"))].
-Lemma handle_tie_refuted :
-  norm_resp (gen_handle (model_lib None []) cx1_cfg cx1_fs (lit "/d/")) = Err (lit "oserror") [] /\
-  resp_of_sout (handle cx1_cfg cx1_fs (lit "/d/"))
-  = Ok (mk_gresp 20 (lit "text/gemini") (GFile [lit "r"; lit "d"; lit "index.gemini"] (lit "hello"))).
+Example index_over_long_raises :
+  handle cx1_cfg cx1_fs (lit "/d/") = ORaise (lit "oserror") /\
+  norm_resp (gen_handle (model_lib None []) cx1_cfg cx1_fs (lit "/d/")) = Err (lit "oserror") [].
 Proof. split; vm_compute; reflexivity. Qed.
 
+Definition cx_tok : str := lit "0123456789abcdef".
 Definition cx_ucfg : ucfg := {| u_root := [lit "u"]; u_max := 1000%N; u_types := None; u_tokens := []; u_delete := false |}.
 Definition cx_req (p : str) : ureq := {| q_path := p; q_size := 3%N; q_mime := lit "text/plain"; q_token := None; q_content := lit "abc" |}.
-(* (2) a target name of 234..255 bytes: the name of the temporary file is over-long, open() fails: 40; model: 20 *)
+(* (2) a target name of 234..255 bytes: the name of the temporary file is over-long, open() fails: 40 (old model: 20) *)
 Definition name240 : str := repeat 97%N 240.
-Lemma upload_tie_refuted_tmp_name :
-  fst (upload_out (gen_handle_upload (model_lib None (lit "0123456789abcdef")) cx_ucfg [([lit "u"], Dir)] (cx_req (47%N :: name240))))
-  = UResp 40 [] /\
-  fst (model_out (handle_upload cx_ucfg [([lit "u"], Dir)] (cx_req (47%N :: name240)) None)) = UResp 20 [].
-Proof. split; vm_compute; reflexivity. Qed.
-(* (3) an over-long last component below directories that do not exist yet: the code creates them before it fails;
-   the model leaves the tree unchanged *)
-Lemma upload_tie_refuted_mkdir :
-  snd (upload_out (gen_handle_upload (model_lib None (lit "0123456789abcdef")) cx_ucfg [([lit "u"], Dir)]
-                     (cx_req (lit "/p/q/" ++ long_name))))
-  = [([lit "u"], Dir); ([lit "u"; lit "p"], Dir); ([lit "u"; lit "p"; lit "q"], Dir)] /\
-  snd (model_out (handle_upload cx_ucfg [([lit "u"], Dir)] (cx_req (lit "/p/q/" ++ long_name)) None)) = [([lit "u"], Dir)].
-Proof. split; vm_compute; reflexivity. Qed.
+Example upload_tmp_name_over_long :
+  handle_upload cx_ucfg [([lit "u"], Dir)] (cx_req (47%N :: name240)) None cx_tok
+  = (UResp 40 (lit "Upload failed"), [([lit "u"], Dir)]).
+Proof. vm_compute; reflexivity. Qed.
+(* (3) an over-long last component below directories that do not exist yet: the code creates them before it fails
+   (the old model left the tree unchanged) *)
+Example upload_over_long_mkdir :
+  handle_upload cx_ucfg [([lit "u"], Dir)] (cx_req (lit "/p/q/" ++ long_name)) None cx_tok
+  = (UResp 40 (lit "Upload failed"), [([lit "u"], Dir); ([lit "u"; lit "p"], Dir); ([lit "u"; lit "p"; lit "q"], Dir)]).
+Proof. vm_compute; reflexivity. Qed.
 (* (4) a file with the name of the temporary file exists: open(.., "xb") refuses it, the upload fails (40) and the
-   file is left alone (since commit 998dfce; before, the cleanup handler unlinked it); the model knows no temporary
-   file and reports success *)
-Definition cx4_fs : fs := [([lit "u"], Dir); ([lit "u"; tmp_name (lit "a") (lit "0123456789abcdef")], File (lit "other"))].
-Lemma upload_tie_refuted_tmp_exists :
-  upload_out (gen_handle_upload (model_lib None (lit "0123456789abcdef")) cx_ucfg cx4_fs (cx_req (lit "/a")))
-  = (UResp 40 [], cx4_fs) /\
-  fst (model_out (handle_upload cx_ucfg cx4_fs (cx_req (lit "/a")) None)) = UResp 20 [].
-Proof. split; vm_compute; reflexivity. Qed.
+   file is left alone (since /repo commit 998dfce; before, the cleanup handler unlinked it - a defect found by the
+   first version of this tie); the old model knew no temporary file and reported success *)
+Definition cx4_fs : fs := [([lit "u"], Dir); ([lit "u"; tmp_name (lit "a") cx_tok], File (lit "other"))].
+Example upload_tmp_exists :
+  handle_upload cx_ucfg cx4_fs (cx_req (lit "/a")) None cx_tok = (UResp 40 (lit "Upload failed"), cx4_fs).
+Proof. vm_compute; reflexivity. Qed.
+(* (5) ENAMETOOLONG is only met where the over-long component is looked up in an existing directory (found by the C14
+   correspondence run once over-long names below missing directories were generated; the model was at fault): a delete
+   below a missing directory answers 51, directly inside the upload directory exists() raises; an over-long component
+   in the middle of the target's directory: the directories before it are created *)
+Definition cx_del (p : str) : ureq := {| q_path := p; q_size := 0%N; q_mime := lit "text/plain"; q_token := None; q_content := [] |}.
+Definition cx_ucfg_del : ucfg := {| u_root := [lit "u"]; u_max := 1000%N; u_types := None; u_tokens := []; u_delete := true |}.
+Example delete_over_long :
+  handle_upload cx_ucfg_del [([lit "u"], Dir)] (cx_del (lit "/a/" ++ long_name)) None cx_tok
+  = (UResp 51 (lit "Resource not found"), [([lit "u"], Dir)]) /\
+  handle_upload cx_ucfg_del [([lit "u"], Dir)] (cx_del (lit "/" ++ long_name)) None cx_tok
+  = (URaise (lit "oserror"), [([lit "u"], Dir)]) /\
+  handle_upload cx_ucfg [([lit "u"], Dir)] (cx_req (lit "/p/" ++ long_name ++ lit "/x")) None cx_tok
+  = (UResp 40 (lit "Upload failed"), [([lit "u"], Dir); ([lit "u"; lit "p"], Dir)]).
+Proof. repeat split; vm_compute; reflexivity. Qed.
